@@ -485,7 +485,13 @@ def finish(ctx, mod):
         'known_findings_seen': sorted(seen_known),
     }
     ev['coverage'].update(ctx.extra)
-    json.dump(ev, open(os.path.join(VERIF, 'evidence', '%s.json' % ctx.pid), 'w'), indent=1)
+    if os.path.realpath(REPO) == '/repo':
+        ev_path = os.path.join(VERIF, 'evidence', '%s.json' % ctx.pid)
+    else:
+        # a run against a scratch copy of the repository (VERIF_REPO=...) is not evidence about /repo
+        os.makedirs(os.path.join(BUILD, 'scratch-evidence'), exist_ok=True)
+        ev_path = os.path.join(BUILD, 'scratch-evidence', '%s.json' % ctx.pid)
+    json.dump(ev, open(ev_path, 'w'), indent=1)
     for l in lines:
         print(l)
     print('%s %s tier=%s seed=%d: obligations %d/%d, evaluations=%d, traces=%d, violations=%d, known=%d, %.1fs' % (
